@@ -58,3 +58,236 @@ func Verif_C18_origin() {
 		verifAssert("origin-value", uint8(o) == verifAt(b, 0))
 	}
 }
+
+func c18be32(b []byte, off int) uint32 {
+	return uint32(verifAt(b, off))<<24 | uint32(verifAt(b, off+1))<<16 | uint32(verifAt(b, off+2))<<8 | uint32(verifAt(b, off+3))
+}
+
+func c18MaxLen() int {
+	// value lengths are symbolic up to 4096 (incl. > 255: extended-length notification data)
+	return 4096
+}
+
+func c18ElemBound() int {
+	if verifTier() >= 1 {
+		return 8
+	}
+	return 3
+}
+
+func Verif_C18_flag_accessors() {
+	f := verifU8("flags")
+	p := PathAttrFlags(f)
+	verifAssert("acc-optional", p.Optional() == (f&0x80 != 0))
+	verifAssert("acc-transitive", p.Transitive() == (f&0x40 != 0))
+	verifAssert("acc-partial", p.Partial() == (f&0x20 != 0))
+	verifAssert("acc-extlen", p.ExtendedLen() == (f&0x10 != 0))
+	verifCover("accessors")
+}
+
+func Verif_C18_next_hop() {
+	flags := PathAttrFlags(verifU8("flags"))
+	b := verifBuf("val", 0, c18MaxLen())
+	var n NextHopPathAttr
+	err := n.Decode(flags, b)
+	fok := c18FlagsOK(flags, false, true)
+	c18Expect("nexthop", err, verifAnd(fok, len(b) == 4), fok, false, NOTIF_SUBCODE_ATTR_LEN_ERR, 0, "", false)
+	if err == nil {
+		a := netipAddrOf(n).As4()
+		verifAssert("nexthop-value", verifAnd(verifAnd(a[0] == verifAt(b, 0), a[1] == verifAt(b, 1)), verifAnd(a[2] == verifAt(b, 2), a[3] == verifAt(b, 3))))
+	}
+}
+
+func Verif_C18_med() {
+	flags := PathAttrFlags(verifU8("flags"))
+	b := verifBuf("val", 0, c18MaxLen())
+	var m MEDPathAttr = 0xEEEEEEEE
+	err := m.Decode(flags, b)
+	fok := c18FlagsOK(flags, true, false)
+	c18Expect("med", err, verifAnd(fok, len(b) == 4), fok, false, NOTIF_SUBCODE_ATTR_LEN_ERR, 0, "", false)
+	if err == nil {
+		verifAssert("med-value", uint32(m) == c18be32(b, 0))
+	}
+}
+
+func Verif_C18_local_pref() {
+	flags := PathAttrFlags(verifU8("flags"))
+	b := verifBuf("val", 0, c18MaxLen())
+	var l LocalPrefPathAttr = 0xEEEEEEEE
+	err := l.Decode(flags, b)
+	fok := c18FlagsOK(flags, false, true)
+	c18Expect("localpref", err, verifAnd(fok, len(b) == 4), fok, false, NOTIF_SUBCODE_ATTR_LEN_ERR, 0, "", false)
+	if err == nil {
+		verifAssert("localpref-value", uint32(l) == c18be32(b, 0))
+	}
+}
+
+// ATOMIC_AGGREGATE is well-known discretionary (RFC 4271 §5.1.6): Optional=0, Transitive=1.
+// Known finding C18-atomic-aggregate-optional-bit: the implementation demands Optional=1.
+// Region: Transitive bit set (where the two readings of the Optional bit diverge).
+func Verif_C18_atomic_aggregate() {
+	flags := PathAttrFlags(verifU8("flags"))
+	b := verifBuf("val", 0, c18MaxLen())
+	var a AtomicAggregatePathAttr
+	err := a.Decode(flags, b)
+	fok := c18FlagsOK(flags, false, true)
+	region := uint8(flags)&0x40 != 0
+	c18Expect("atomicagg", err, verifAnd(fok, len(b) == 0), fok, true, NOTIF_SUBCODE_ATTR_LEN_ERR, 0, "C18-atomic-aggregate-optional-bit", region)
+	if err == nil {
+		verifAssert("atomicagg-value", bool(a))
+	}
+}
+
+func Verif_C18_aggregator() {
+	flags := PathAttrFlags(verifU8("flags"))
+	b := verifBuf("val", 0, c18MaxLen())
+	var a AggregatorPathAttr
+	err := a.Decode(flags, b)
+	fok := c18FlagsOK(flags, true, true)
+	c18Expect("aggregator", err, verifAnd(fok, len(b) == 8), fok, true, NOTIF_SUBCODE_ATTR_LEN_ERR, 0, "", false)
+	if err == nil {
+		verifAssert("aggregator-as", a.AS == c18be32(b, 0))
+		ip := a.IP.As4()
+		verifAssert("aggregator-ip", verifAnd(verifAnd(ip[0] == verifAt(b, 4), ip[1] == verifAt(b, 5)), verifAnd(ip[2] == verifAt(b, 6), ip[3] == verifAt(b, 7))))
+	}
+}
+
+func Verif_C18_originator_id() {
+	flags := PathAttrFlags(verifU8("flags"))
+	b := verifBuf("val", 0, c18MaxLen())
+	var o OriginatorIDPathAttr
+	err := o.Decode(flags, b)
+	fok := c18FlagsOK(flags, true, false)
+	c18Expect("originator", err, verifAnd(fok, len(b) == 4), fok, false, NOTIF_SUBCODE_ATTR_LEN_ERR, 0, "", false)
+	if err == nil {
+		a := netipAddrOfOrig(o).As4()
+		verifAssert("originator-value", verifAnd(verifAnd(a[0] == verifAt(b, 0), a[1] == verifAt(b, 1)), verifAnd(a[2] == verifAt(b, 2), a[3] == verifAt(b, 3))))
+	}
+}
+
+func Verif_C18_communities() {
+	k := c18ElemBound()
+	verifLoopBound(k)
+	verifNote("COMMUNITIES / CLUSTER_LIST / LARGE_COMMUNITIES: at most the unwinding bound of elements per attribute; longer values are cut (see bounds_hit)")
+	flags := PathAttrFlags(verifU8("flags"))
+	b := verifBuf("val", 0, c18MaxLen())
+	var c CommunitiesPathAttr
+	err := c.Decode(flags, b)
+	fok := c18FlagsOK(flags, true, true)
+	vok := verifAnd(len(b) >= 4, len(b)%4 == 0)
+	c18Expect("communities", err, verifAnd(fok, vok), fok, false, NOTIF_SUBCODE_ATTR_LEN_ERR, 0, "", false)
+	if err == nil {
+		verifAssert("communities-count", len(c)*4 == len(b))
+		j := verifInt("j")
+		verifAssume(verifAnd(j >= 0, j < len(c)))
+		verifAssert("communities-value", c[j] == c18be32(b, 4*j))
+		verifCoverIf("communities-three", len(c) == 3)
+	}
+}
+
+func Verif_C18_cluster_list() {
+	k := c18ElemBound()
+	verifLoopBound(k)
+	flags := PathAttrFlags(verifU8("flags"))
+	b := verifBuf("val", 0, c18MaxLen())
+	var c ClusterListPathAttr
+	err := c.Decode(flags, b)
+	fok := c18FlagsOK(flags, true, false)
+	vok := verifAnd(len(b) >= 4, len(b)%4 == 0)
+	c18Expect("clusterlist", err, verifAnd(fok, vok), fok, false, NOTIF_SUBCODE_ATTR_LEN_ERR, 0, "", false)
+	if err == nil {
+		verifAssert("clusterlist-count", len(c)*4 == len(b))
+		for j := 0; j < len(c); j++ {
+			a := c[j].As4()
+			verifAssert("clusterlist-value", verifAnd(verifAnd(a[0] == verifAt(b, 4*j), a[1] == verifAt(b, 4*j+1)), verifAnd(a[2] == verifAt(b, 4*j+2), a[3] == verifAt(b, 4*j+3))))
+		}
+		verifCoverIf("clusterlist-two", len(c) == 2)
+	}
+}
+
+func Verif_C18_large_communities() {
+	k := c18ElemBound()
+	verifLoopBound(k)
+	flags := PathAttrFlags(verifU8("flags"))
+	b := verifBuf("val", 0, c18MaxLen())
+	var l LargeCommunitiesPathAttr
+	err := l.Decode(flags, b)
+	fok := c18FlagsOK(flags, true, true)
+	vok := verifAnd(len(b) >= 12, len(b)%12 == 0)
+	c18Expect("largecomm", err, verifAnd(fok, vok), fok, false, NOTIF_SUBCODE_ATTR_LEN_ERR, 0, "", false)
+	if err == nil {
+		verifAssert("largecomm-count", len(l)*12 == len(b))
+		for j := 0; j < len(l); j++ {
+			verifAssert("largecomm-value", verifAnd(l[j].GlobalAdmin == c18be32(b, 12*j),
+				verifAnd(l[j].LocalData1 == c18be32(b, 12*j+4), l[j].LocalData2 == c18be32(b, 12*j+8))))
+		}
+		verifCoverIf("largecomm-two", len(l) == 2)
+	}
+}
+
+// AS_PATH: reference walk over at most S segments, written over offsets.
+func Verif_C18_as_path() {
+	S := 2
+	if verifTier() >= 1 {
+		S = 3
+	}
+	verifLoopBound(c18ElemBound())
+	verifNote("AS_PATH: at most S segments (2 quick / 3 thorough) and at most the unwinding bound of AS numbers per segment; confederation segment types 3/4 are don't-care (property silent)")
+	flags := PathAttrFlags(verifU8("flags"))
+	b := verifBuf("val", 0, c18MaxLen())
+	L := len(b)
+	fok := c18FlagsOK(flags, false, true)
+	// reference parse
+	off := 0
+	ok := true
+	confed := false
+	var segOn [4]bool
+	var segTyp [4]uint8
+	var segCnt [4]int
+	var segOff [4]int
+	for s := 0; s < S; s++ {
+		active := verifAnd(ok, off < L)
+		typ := verifAt(b, off)
+		cnt := int(verifAt(b, off+1))
+		end := off + 2 + 4*cnt
+		segOK := verifAnd(verifAnd(off+2 <= L, verifOr(typ == 1, typ == 2)), verifAnd(cnt >= 1, end <= L))
+		confed = verifOr(confed, verifAnd(active, verifAnd(off+2 <= L, verifOr(typ == 3, typ == 4))))
+		good := verifAnd(active, segOK)
+		segOn[s], segTyp[s], segCnt[s], segOff[s] = good, typ, cnt, off
+		ok = verifIteBool(active, segOK, ok)
+		off = verifIteInt(good, end, off)
+	}
+	// bound: the value holds at most S segments
+	verifAssume(verifOr(!ok, off == L))
+	verifAssume(!confed)
+	wf := verifAnd(ok, off == L)
+	var a ASPathAttr
+	err := a.Decode(flags, b)
+	c18Expect("aspath", err, verifAnd(fok, wf), fok, false, NOTIF_SUBCODE_MALFORMED_AS_PATH, NOTIF_SUBCODE_ATTR_LEN_ERR, "", false)
+	if err != nil {
+		return
+	}
+	// no AS number lost: per type, the decoded list is the concatenation of the segments of that type
+	nSeq, nSet := 0, 0
+	for s := 0; s < S; s++ {
+		nSeq = verifIteInt(verifAnd(segOn[s], segTyp[s] == 2), nSeq+segCnt[s], nSeq)
+		nSet = verifIteInt(verifAnd(segOn[s], segTyp[s] == 1), nSet+segCnt[s], nSet)
+	}
+	verifAssert("aspath-sequence-count", len(a.ASSequence) == nSeq)
+	verifAssert("aspath-set-count", len(a.ASSet) == nSet)
+	baseSeq, baseSet := 0, 0
+	for s := 0; s < S; s++ {
+		j := verifInt("j")
+		inSeg := verifAnd(j >= 0, j < segCnt[s])
+		isSeq := verifAnd(inSeg, verifAnd(segOn[s], segTyp[s] == 2))
+		isSet := verifAnd(inSeg, verifAnd(segOn[s], segTyp[s] == 1))
+		want := c18be32(b, segOff[s]+2+4*j)
+		verifAssert("aspath-sequence-value", verifImplies(isSeq, c18u32At(a.ASSequence, baseSeq+j) == want))
+		verifAssert("aspath-set-value", verifImplies(isSet, c18u32At(a.ASSet, baseSet+j) == want))
+		baseSeq = verifIteInt(verifAnd(segOn[s], segTyp[s] == 2), baseSeq+segCnt[s], baseSeq)
+		baseSet = verifIteInt(verifAnd(segOn[s], segTyp[s] == 1), baseSet+segCnt[s], baseSet)
+	}
+	verifCoverIf("aspath-two-sequence-segments", verifAnd(verifAnd(segOn[0], segOn[1]), verifAnd(segTyp[0] == 2, segTyp[1] == 2)))
+	verifCoverIf("aspath-set-and-sequence", verifAnd(verifAnd(segOn[0], segOn[1]), segTyp[0] != segTyp[1]))
+	verifCoverIf("aspath-empty", L == 0)
+}
